@@ -18,5 +18,14 @@ for ep, n in enumerate(["set_membind", "set_area_membind"]):
                           tiers={"quick": {}, "thorough": {}}, bounds="set as above (cpuset or nodeset by flag); flags, policy: any int"))
 HARNESSES.append(dict(COMMON, name="dummy_hooks", entry="h_dummy", encoded=["hwloc_set_binding_hooks", "hwloc_set_dummy_hooks", "dontset_*/dontget_* hooks", "hwloc_set_cpubind", "hwloc_get_cpubind", "hwloc_get_last_cpu_location", "hwloc_get_membind"],
                       tiers={"quick": {}, "thorough": {}}, bounds="topology without IS_THISSYSTEM; any valid set and flags"))
+LINUX = dict(src="C10_linux.c", env=["vp_alloc.c", "vp_libc.c"], units=["hwloc/bitmap.c"], unwind=6, checks="safety", object_bits=11, timeout=1500,
+             unwindset={"hwloc_linux_get_tid_cpubind.0": 130, "hwloc_linux_set_tid_cpubind.0": 130, "hwloc_linux_set_tid_cpubind.1": 130, "hwloc_linux_get_tid_cpubind.1": 130, "hwloc_linux_find_kernel_nr_cpus.0": 4, "sched_getaffinity.0": 4, "sched_setaffinity.0": 4, "sched_setaffinity.1": 4},
+             stubs=["kernel model: one affinity mask of 128 bits; sched_getaffinity fails with EINVAL on a buffer shorter than the kernel mask, sched_setaffinity stores the mask (EINVAL if empty)",
+                    "open/openat fail (no /sys): the size-probing loop of hwloc_linux_find_kernel_nr_cpus runs for real", "glibc __sched_cpualloc/__sched_cpufree: malloc/free of CPU_ALLOC_SIZE"],
+             assumptions=["allocation never fails", "CPU numbers below 128", "a topology whose only consulted field is the root's complete_cpuset (symbolic, or absent)"])
+HARNESSES.append(dict(LINUX, name="linux_get_tid", entry="h_linux_get", encoded=["hwloc_linux_get_tid_cpubind", "hwloc_linux_find_kernel_nr_cpus"], tiers={"quick": {}, "thorough": {}},
+                      bounds="kernel mask: any 128 bits; complete cpuset: any 128 bits or absent; previous content of the output bitmap: any 192 bits with or without an infinite tail", cost=60))
+HARNESSES.append(dict(LINUX, name="linux_roundtrip", entry="h_linux_roundtrip", encoded=["hwloc_linux_set_tid_cpubind", "hwloc_linux_get_tid_cpubind", "hwloc_linux_find_kernel_nr_cpus"], tiers={"quick": {}, "thorough": {}},
+                      bounds="any non-empty set inside any 128-bit complete cpuset; any previous kernel mask", cost=60))
 OUTSIDE = ["the live round trip on the running system (bind -> get, last_cpu_location inside the binding, load restores the binding): real syscalls cannot be encoded",
-           "native Linux hooks (sched_setaffinity mask sizing)", "get_*membind / alloc_membind entry points"]
+           "the other native hooks (process-wide binding over /proc/<pid>/task, memory binding syscalls, non-Linux ports)", "get_*membind / alloc_membind entry points"]
